@@ -32,6 +32,10 @@ ERRNOS = ["EIO", "ENOSPC", "EACCES", "EMFILE"]
 # scenario generation
 # ----------------------------------------------------------------------
 def gen_scenario(rng):
+    return with_symlink(rng, gen_scenario_plain(rng))
+
+
+def gen_scenario_plain(rng):
     roll = rng.random()
     if roll < 0.45:
         if rng.random() < 0.4:
@@ -47,6 +51,30 @@ def gen_scenario(rng):
     if rng.random() < 0.25:
         faults[str(rng.randrange(0, 6))] = rng.choice(["fail", "empty"])
     return gen_args.gen_rotate(rng, peer_faults=faults)
+
+
+def with_symlink(rng, recipe):
+    """
+    Now and then the file named on the command line is a symbolic link to
+    the real file elsewhere (dot-file managers, /etc/alternatives, shared
+    configuration trees).  What the user sees under that name, and under
+    <name>.bak, is what the property is about.
+    """
+    import posixpath
+    meta = recipe["meta"]
+    if recipe.get("unreadable") or rng.random() >= 0.07:
+        return recipe
+    cands = [t for t in meta["targets"]
+             if t in recipe["files"] and t not in meta["keep"]]
+    if not cands:
+        return recipe
+    target = rng.choice(cands)
+    name = "real-" + posixpath.basename(target)
+    real = "/sim/w/store/" + name
+    recipe["files"][real] = recipe["files"].pop(target)
+    recipe["links"] = {target: rng.choice(["store/" + name, real])}
+    meta["symlinked"] = True
+    return recipe
 
 
 def kinds_for(step_kind, path, recipe):
